@@ -1,7 +1,7 @@
 CONSTANTS
   MaxLen = 4
   MaxReentry = 2
-  Envs = {"ok", "retry503", "close", "aterm", "lterm"}
+  Envs = {"ok", "retry503", "close", "aterm", "lterm", "atermA", "atermB", "atermC"}
   Defects = {}
 INIT Init
 NEXT Next
